@@ -1,7 +1,7 @@
 """C08 - invalid or unsupported requests are rejected (configuration clause + strictness flag)."""
 from ..rules_tables import Tables
 from ..rules_flow import Flow
-from ..rules_gate import G1_siblings, G2_served, G4_strict
+from ..rules_gate import G1_siblings, G2_served, G4_strict, G6_no_extra_rejection
 from ..rules_ni import NI2_validity_sign_free
 
 
@@ -13,9 +13,10 @@ def run(tree, rep, tier):
     G1_siblings(rep, flow, T, tier)
     G2_served(rep, flow, T)
     G4_strict(rep, flow, ["stabilizer_circuits.get_preparation_circuit", "stabilizer_circuits.compress_preparation_circuit"])
+    G6_no_extra_rejection(rep, flow)
     NI2_validity_sign_free(rep, flow)
     rep.decided += ["the sibling definitions of 'supported configuration' agree with the 20 advertised pairs (G1)",
-                    "every public entry point serves exactly the advertised pairs (G2)",
+                    "every public entry point serves at most the advertised pairs (G2) and rejects no valid request for an advertised pair by a condition of its own (G6)",
                     "the underconstrained-input check of the sign-reference synthesis is never relaxed on the API path (G4)",
                     "the verdict of the validity check does not depend on the signs (NI2; necessary for 'accepts exactly the sets of n commuting independent Paulis')"]
     rep.not_decided += ["'raise or be correct' for arbitrary dependent / anticommuting Pauli sets (value-level)",
